@@ -235,6 +235,20 @@ B11 = {
  "C17-13": ("C17", "the peer killing a connection at the instant its owner closes it (refused handshake cleaned up by the pool)", "already-closed check of Conn.Close moved out of the critical section: close of closed channel, 24 times in 400 000 natural attempts"),
  "C18-16": ("C18", "a topology event and its refresh, then a new session, a second refresh or a control reconnect", "host refresh runs in a goroutine of its own while the event loop keeps using hosts / listeners / currentHostIndex"),
 }
+B12 = {
+ "C02-10": ("C02", "two backend connections each answered UNPREPARED for the same id, their write loops interleaved, different stream ids on the two connections", "raw frames get their stream id written in place - the cached PREPARE frame is shared by every connection that re-prepares the id: one connection's PREPARE goes out with the other's stream id"),
+ "C04-13": ("C04", "a first attempt answered with an always-retried outcome (unavailable, bootstrapping, retriable read timeout), the second with a write timeout / overloaded / server error, >= 3 hosts", "retry decision kept as request state and never reset: the previous attempt's decision is applied again"),
+ "C04-14": ("C04", "a BATCH with a prepared child whose id was never prepared through this proxy, an attempt that may have applied it", "batch path treats an id without metadata as idempotent while the EXECUTE path still refuses"),
+ "C06-12": ("C06", "two different statements with the same 32-bit hash and different ground truth, classified one after the other", "verdict cache keyed by a 32-bit hash of the text only"),
+ "C06-13": ("C06", "one statement with >= 1024 multi-column relations (large batch of range deletes)", "nesting counter not decremented on one successful return: every multi-column relation leaks a level"),
+ "C11-13": ("C11", "a BATCH re-encode whose writer fails part way, then any later BATCH encode in the process", "pooled scratch buffer returned dirty after a failed write: the next frame starts with the tail of the failed one"),
+ "C11-14": ("C11", "EXECUTE / BATCH body truncated inside an id that is preceded by enough other bytes (second id of a v5 EXECUTE, a BATCH child id)", "zero-copy id reader checks the declared length against the whole body instead of the bytes left: panic or read past the frame"),
+ "C12-11": ("C12", "a non-SELECT request whose consistency short is no defined level but shares its low four bits with a listed one (0x0014 against QUORUM)", "lookup table indexed with consistency & 0xf: the request is rewritten to the override and executed"),
+ "C13-15": ("C13", "two refused frames of different versions on one connection (the sequence a downgrading driver produces)", "the protocol error is built once per connection and reused: later refusals name the first refused version"),
+ "C15-15": ("C15", "a host added (or bootstrapped), removed, and added again", "set of known host keys not updated on removal: the second add is swallowed"),
+ "C18-17": ("C18", "one client connection that pipelines: an EXECUTE handled while a PREPARED result for the same connection is processed, or two PREPAREs completing on different backend connections", "per-client map written on the response path and read on the request path"),
+}
+B11.update(B12)
 B10.update(B11)
 B9.update(B10)
 B8.update(B9)
@@ -269,7 +283,7 @@ for sid in sorted(os.listdir(os.path.join(V, "seeded"))):
         demos = sorted(f for f in os.listdir(d) if f not in ("patch.diff", "meta.json", "notes.md"))
         meta = {
             "id": sid, "breaks_property": prop,
-            "origin": "fresh sub-agent given only the property text and a scratch worktree of /repo (commit %s)" % ("dd3f42b (round 11)" if sid in B11 else "dd3f42b (round 10)" if sid in B10 else "dd3f42b (round 9)" if sid in B9 else "dd3f42b (round 8)" if sid in B8 else "19163b6 (round 7)" if sid in B7 else "19163b6 (round 6)" if sid in B6 else "19163b6" if sid in B5 else "78cb41b" if sid in B4 else "98f4792" if sid in B3 else "2fe6b89"),
+            "origin": "fresh sub-agent given only the property text and a scratch worktree of /repo (commit %s)" % ("dd3f42b (round 12)" if sid in B12 else "dd3f42b (round 11)" if sid in B11 else "dd3f42b (round 10)" if sid in B10 else "dd3f42b (round 9)" if sid in B9 else "dd3f42b (round 8)" if sid in B8 else "19163b6 (round 7)" if sid in B7 else "19163b6 (round 6)" if sid in B6 else "19163b6" if sid in B5 else "78cb41b" if sid in B4 else "98f4792" if sid in B3 else "2fe6b89"),
             "needs_to_manifest": needs, "effect": effect, "demonstration": demos,
             "confirmed": "bin/seedconfirm in the scratch worktree: patch applies, go build ok, existing suite passes with it (in a private network namespace), demonstration FAILS with the patch and PASSES without it",
             "checks_run": "bin/seedtest seeded/%s/patch.diff quick %s ; bin/seedmatrix quick" % (sid, prop),
